@@ -468,12 +468,14 @@ func c14Gen(g *hx.Gen) {
 		for _, e := range seq {
 			parts = append(parts, fmt.Sprintf("%d:%d", e[0], e[1]))
 		}
-		parts = append(parts, fmt.Sprintf("2:%d", r.Intn(2)), "2:0")
+		// x = 0 or 5: as a preference backend 0 or 1, as an outcome always "answers" (no third failure: the run
+		// must not last into the spontaneous expiry of the second one)
+		parts = append(parts, fmt.Sprintf("2:%d", 5*r.Intn(2)), "2:0")
 		if r.Bool() {
 			parts = append(parts, "2:0")
 		}
 		parts = append(parts, "w")
-		parts = append(parts, fmt.Sprintf("%d:%d", nThreads-1, r.Intn(2)))
+		parts = append(parts, fmt.Sprintf("%d:%d", nThreads-1, 5*r.Intn(2)))
 		parts = append(parts, "w", "w")
 		for round := 0; round < 4; round++ {
 			for t := 0; t < nThreads; t++ {
